@@ -88,6 +88,16 @@ Example C14_history_independent_nonvacuous :
   [ BNew (Ok 0%nat); BNew (Ok 1%nat); BVal (Ok false) [nC; nA]; BVal (Ok true) [nC]; BVal (Ok false) [nC; nA] ].
 Proof. exact (conj ex_reachable ex_history_fixed). Qed.
 
+(* every state along a run of constructions with defaulted storage and validations is such a reachable state *)
+Theorem C14_runs_are_reachable w fuel ops st :
+  reachable w st ->
+  (forall o, In o ops -> match o with
+                         | ONewLvs _ _ (SGiven _) | ONewCascade _ (SGiven _) => False
+                         | _ => True end) ->
+  reachable w (fst (run_history false w fuel st ops)).
+Proof. exact (run_history_reachable w fuel ops st). Qed.
+Print Assumptions C14_runs_are_reachable.
+
 Theorem C14_same_verdict w st1 st2 f1 f2 i1 i2 a b p s1 s2 r1 r2 t1 t2 :
   reachable w st1 -> reachable w st2 ->
   nth_error (s_insts st1) i1 = Some a -> nth_error (s_insts st2) i2 = Some b ->
